@@ -55,6 +55,9 @@ typedef struct cs_param {
     int predef;			/* VNACAL_MATCH/OPEN/SHORT for CSP_PREDEF */
     /* true value: (c0 + c1 x) / (1 + c2 x), x = normalised frequency */
     cs_c c0, c1, c2;
+    /* where not 0 the value above is multiplied by exp(j warp x): no
+       rational function of low order any more */
+    double warp;
     /* CSP_VECTOR: own grid (npts points over [fmin*lo, fmax*hi]) */
     int npts;
     double lo, hi;
